@@ -24,6 +24,7 @@ var c17Opt = evGenOpt{
 	Early:     true,
 	BadVotes:  true,
 	Restarts:  true,
+	Copies:    true,
 	MaxEvents: 16,
 }
 
@@ -135,6 +136,9 @@ func c17Exec(c evCase, x *pbt.Ctx) error {
 	}
 	if h.early > 0 {
 		x.Class("early-votes")
+	}
+	if h.copies > 0 {
+		x.Class("forged-copy-of-a-stored-block")
 	}
 	x.NonTrivial = forged || restartBetween
 	var he *hangErr
@@ -366,7 +370,7 @@ func TestC17(t *testing.T) {
 		pbt.Options{Sub: "canonical", Checks: pbt.Per(500, 40000)}, c17CanonGen, c17CanonExec)
 	pbt.Run(t, "C17", "skip-link scenario: cp1 without majority, cp2 justified by a supermajority link from genesis that skips cp1, then 1..n validators sign cp1 -> cp2 (before or after), optional restart; the soundness oracle must hold (cp1 neither justified nor finalized unless the direct link has a supermajority itself)",
 		pbt.Options{Sub: "skip-link", Checks: pbt.Per(200, 20000)}, c17SkipGen, c17SkipExec)
-	pbt.Run(t, "C17", "random block trees with valid and forged header signatures, bursts of valid and forged verification messages and restarts; after every event every checkpoint the node reports as justified/finalized (and LastJustified/LastFinalized) must be derivable from the valid signatures it was shown (supermajority of the parent epoch's validators on one link from a justifiable source; direct child for finalization); non-trivial = forged signatures or a restart between votes",
+	pbt.Run(t, "C17", "random block trees with valid and forged header signatures, bursts of valid and forged verification messages, copies of stored checkpoint blocks with forged header signatures, and restarts; after every event every checkpoint the node reports as justified/finalized (and LastJustified/LastFinalized) must be derivable from the valid signatures it was shown (supermajority of the parent epoch's validators on one link from a justifiable source; direct child for finalization); non-trivial = forged signatures or a restart between votes",
 		pbt.Options{Sub: "random", Checks: pbt.Per(150, 20000)}, evGen(c17Opt), c17Exec)
 }
 
